@@ -507,6 +507,21 @@ func equalsKind(c *Ctx, k eqKind) {
 	// exported copy (imported into a fresh instance) and mutated copies
 	doc, err := k.export(a)
 	if err == nil {
+		for where, wname := range []string{"first", "middle", "last"} {
+			var m map[string]interface{}
+			dec := json.NewDecoder(strings.NewReader(string(doc)))
+			dec.UseNumber()
+			if dec.Decode(&m) != nil {
+				continue
+			}
+			if !k.mutate(m, where) {
+				continue
+			}
+			md, _ := json.Marshal(m)
+			if mc, err := k.imp(c, md); err == nil && mc != nil {
+				check("mutated-"+wname, mc)
+			}
+		}
 		if cp, err := k.imp(c, doc); err == nil && cp != nil {
 			check("imported-copy", cp)
 			// Equals true => identical answers, now and under the same further operations: the same
@@ -524,21 +539,6 @@ func equalsKind(c *Ctx, k eqKind) {
 				c.fail([]string{"C17"}, k.name+"-equal-but-answers-differ", fmt.Sprintf("%s: two structures with the same history of operations answer differently: %.150s vs %.150s", k.name, qa, qb), map[string]interface{}{"kind": k.name, "history": hist, "more": more})
 			}
 			hist = append(append([]int(nil), hist...), more...)
-		}
-		for where, wname := range []string{"first", "middle", "last"} {
-			var m map[string]interface{}
-			dec := json.NewDecoder(strings.NewReader(string(doc)))
-			dec.UseNumber()
-			if dec.Decode(&m) != nil {
-				continue
-			}
-			if !k.mutate(m, where) {
-				continue
-			}
-			md, _ := json.Marshal(m)
-			if mc, err := k.imp(c, md); err == nil && mc != nil {
-				check("mutated-"+wname, mc)
-			}
 		}
 	}
 	// one parameter changed, same history
